@@ -100,19 +100,25 @@ Section SonicBatchFacts.
   Qed.
 
   (* the batch verifier decides whether the randomizer-weighted sum of the group residuals is zero *)
-  Theorem sonic_batch_is_weighted_sum vk cs qs ev pfs chal vtape rs rest :
+  Theorem sonic_batch_m_is_weighted_sum vk cs qs evm pfs chal vtape rs rest :
     length pfs = length (group_queries qs) ->
-    s_group_resids vk (s_comm_map cs) (evals_map ev) (group_queries qs) pfs chal = Ok (rs, rest) ->
+    s_group_resids vk (s_comm_map cs) evm (group_queries qs) pfs chal = Ok (rs, rest) ->
     (length rs <= length vtape)%nat ->
-    s_batch_check vk cs qs ev pfs chal vtape = Ok (feqb (wsum (1 :: vtape) rs) 0, rest, length rs).
+    s_batch_check_m vk cs qs evm pfs chal vtape = Ok (feqb (wsum (1 :: vtape) rs) 0, rest, length rs).
   Proof.
-    intros Hl H L. unfold s_batch_check. rewrite Hl, Nat.eqb_refl. cbn [negb].
+    intros Hl H L. unfold s_batch_check_m. rewrite Hl, Nat.eqb_refl. cbn [negb].
     assert (V0 : sb_val (svk_vk vk) {| sb_lhs := Ok 0; sb_adj := 0; sb_wit := 0 |} 0).
     { eexists. split; [reflexivity|]. cbn [sb_adj sb_wit]. ring. }
     destruct (s_batch_groups_weighted vk _ _ _ _ _ 1 vtape _ O rs rest 0 H L V0) as (a' & Ea & (l & El & Ex)).
     rewrite Ea. cbn [bind]. rewrite El. cbn [bind]. f_equal. f_equal. f_equal.
     rewrite <- Ex. f_equal. ring.
   Qed.
+  Theorem sonic_batch_is_weighted_sum vk cs qs ev pfs chal vtape rs rest :
+    length pfs = length (group_queries qs) ->
+    s_group_resids vk (s_comm_map cs) (evals_map ev) (group_queries qs) pfs chal = Ok (rs, rest) ->
+    (length rs <= length vtape)%nat ->
+    s_batch_check vk cs qs ev pfs chal vtape = Ok (feqb (wsum (1 :: vtape) rs) 0, rest, length rs).
+  Proof. unfold s_batch_check. apply sonic_batch_m_is_weighted_sum. Qed.
 
   Lemma wsum_zero ws : forall rs, Forall (fun r => r = 0) rs -> wsum ws rs = 0.
   Proof.
@@ -121,6 +127,17 @@ Section SonicBatchFacts.
   Qed.
 
   (* every group's single check accepts: the batch accepts, whatever the randomizers *)
+  Corollary sonic_batch_m_all_true vk cs qs evm pfs chal vtape rs rest :
+    length pfs = length (group_queries qs) ->
+    s_group_resids vk (s_comm_map cs) evm (group_queries qs) pfs chal = Ok (rs, rest) ->
+    (length rs <= length vtape)%nat ->
+    Forall (fun r => feqb r 0 = true) rs ->
+    s_batch_check_m vk cs qs evm pfs chal vtape = Ok (true, rest, length rs).
+  Proof.
+    intros Hl H L Hf. rewrite (sonic_batch_m_is_weighted_sum vk cs qs evm pfs chal vtape rs rest Hl H L).
+    rewrite wsum_zero; [rewrite (proj2 (FL_eqb 0 0) eq_refl); reflexivity|].
+    eapply Forall_impl; [|exact Hf]. intros r Hr. apply FL_eqb. exact Hr.
+  Qed.
   Corollary sonic_batch_all_true vk cs qs ev pfs chal vtape rs rest :
     length pfs = length (group_queries qs) ->
     s_group_resids vk (s_comm_map cs) (evals_map ev) (group_queries qs) pfs chal = Ok (rs, rest) ->
